@@ -6,6 +6,7 @@ executed, de-duplicated by post-crash tree digest.  mode 'plan': one explicit in
 sequence (the replay form)."""
 from __future__ import annotations
 
+import collections
 import copy
 import os
 import pickle
@@ -47,8 +48,11 @@ ASSUMPTIONS = [
 def gen_case(tape, tier):
     w = gen_workload(tape, max_funcs=4 if tier == "quick" else 5)
     storage = C.gen_storage(tape, w)
-    ex_kind = tape.pick(["sequential", "sequential", "single"], "exec-kind")
+    ex_kind = tape.pick(["sequential", "sequential", "single", "single", "default-pool"], "exec-kind")
     executor = {"kind": "sequential"}
+    if ex_kind == "default-pool":  # executor=None, parallel=True: pipefunc creates its own process pool per map
+        executor = {"kind": "default-pool", "ex": {"mode": "process", "workers": 1 + tape.choose(3, "workers"),
+                                                   "start": tape.pick(["fifo", "any"], "start"), "pickle_at": "submit"}}
     if ex_kind == "single":
         executor = {"kind": "single", "ex": {"mode": tape.pick(["thread", "process"], "mode"),
                                              "workers": 1 + tape.choose(3, "workers"),
@@ -142,7 +146,9 @@ def stored_elements(folder, w, ref):
     value.  Reads the layout named in the property's anchors with plain pickle, no pipefunc code."""
     import cloudpickle  # noqa: F401 - registers reducers needed to unpickle
 
-    done = set()
+    import collections
+
+    done = collections.Counter()  # a multiset: with empty axes or None values different elements have equal arguments
     out_dir = os.path.join(folder, "outputs")
     if not os.path.isdir(out_dir):
         return done
@@ -170,7 +176,7 @@ def stored_elements(folder, w, ref):
                     break
                 key = key or _call_key(canon(v))
             if ok_all and key is not None:
-                done.add(key)
+                done[key] += 1
             continue
         n = len(ref.elements[outs[0]])
         for lin in range(n):
@@ -199,7 +205,7 @@ def stored_elements(folder, w, ref):
                     break
                 key = key or _call_key(exp)
             if ok_all and key is not None:
-                done.add(key)
+                done[key] += 1
     return done
 
 
@@ -258,8 +264,10 @@ class Attempt:
         self.steps = 0
 
 
-def run_attempt(w, cfg, root, tape, *, attempt, cleanup, interruption=None, inputs_variant=None):
+def run_attempt(w, cfg, root, tape, *, attempt, cleanup, interruption=None, inputs_variant=None, new_process=True):
     at = Attempt()
+    if new_process:
+        C.reset_process_globals()  # the previous attempt's process is gone, and its module state with it
     sim = C.new_sim(tape, root, preempt=cfg.get("preempt", 0.3), fs_kwargs={"buffer_size": cfg.get("buffer_size")})
     sim.attempt = attempt
     fs = sim.fs
@@ -269,6 +277,8 @@ def run_attempt(w, cfg, root, tape, *, attempt, cleanup, interruption=None, inpu
             fs.crash_at = interruption["at"]
             fs.torn_bytes = interruption.get("torn")
             fs.orphans = bool(cfg.get("orphans")) and cfg["executor"]["kind"] != "sequential"
+        elif interruption["kind"] == "worker-death":
+            fault = Fault(interruption["fn"], None, "WorkerDeath", attempt=attempt, nth=interruption["nth"])
         else:
             fault = Fault(interruption["fn"], None, interruption["exc"], attempt=attempt, nth=interruption["nth"])
     sim.faults = FaultPlan([fault] if fault else [])
@@ -304,7 +314,10 @@ def run_attempt(w, cfg, root, tape, *, attempt, cleanup, interruption=None, inpu
                 at.outcome, at.exc = "stepcap", e
             except Exception as e:  # noqa: BLE001
                 at.exc = e
-                at.outcome = "raised" if fault is not None and fault.fired and _same_exc(e, fault.exc_kind) else "error"
+                if fault is not None and fault.fired and fault.exc_kind == "WorkerDeath":
+                    at.outcome = "worker-death" if type(e).__name__ == "BrokenProcessPool" else "error"
+                else:
+                    at.outcome = "raised" if fault is not None and fault.fired and _same_exc(e, fault.exc_kind) else "error"
     finally:
         C.restore_default_pool(sim)
         simmanager.shutdown_all(sim)  # the simulated process is gone: so are its manager processes
@@ -417,12 +430,18 @@ def _run_plan(w, cfg, plan, ref, tape, *, seen_digests=None):
             episodes[-1].append(it)
         counter = [0]
 
+        same_process = [False]
+
         def episode(ep):
             stored_sets = []
             later_calls = []
             n_attempt = 0
             for it in ep:
-                a = run_attempt(w, cfg, root, tape, attempt=counter[0] + n_attempt, cleanup=(n_attempt == 0), interruption=it)
+                a = run_attempt(w, cfg, root, tape, attempt=counter[0] + n_attempt, cleanup=(n_attempt == 0), interruption=it,
+                                new_process=same_process[0] is False)
+                # after a user exception or the death of a pool worker the program is still alive: the caller resumes in
+                # the same process (module state survives); after the death of the main process a new one starts
+                same_process[0] = it["kind"] in ("raise", "worker-death")
                 info["yields"] += a.steps
                 for k2, v2 in a.probes.items():
                     info["probes"][k2] = info["probes"].get(k2, 0) + v2
@@ -432,6 +451,10 @@ def _run_plan(w, cfg, plan, ref, tape, *, seen_digests=None):
                 elif it["kind"] == "crash" and a.outcome != "crash":
                     V("interrupted-attempt", f"ended-with:{a.outcome}:{type(a.exc).__name__}",
                       {"plan": plan, "exc": repr(a.exc)[:300], "note": a.crash_note}, _sig(a.exc, it, a))
+                    return False
+                elif it["kind"] == "worker-death" and a.outcome not in ("worker-death", "ok"):
+                    V("interrupted-attempt", f"ended-with:{a.outcome}:{type(a.exc).__name__}",
+                      {"plan": plan, "exc": repr(a.exc)[:300]}, _sig(a.exc, it, a))
                     return False
                 elif it["kind"] == "raise" and a.outcome not in ("raised", "ok"):
                     V("interrupted-attempt", f"ended-with:{a.outcome}:{type(a.exc).__name__}",
@@ -459,7 +482,8 @@ def _run_plan(w, cfg, plan, ref, tape, *, seen_digests=None):
                     info["probes"]["dedup_same_tree"] = 1
                     return False
                 seen_digests.add(key)
-            fin = run_attempt(w, cfg, root, tape, attempt=counter[0] + n_attempt, cleanup=False)
+            fin = run_attempt(w, cfg, root, tape, attempt=counter[0] + n_attempt, cleanup=False, new_process=same_process[0] is False)
+            same_process[0] = False
             info["yields"] += fin.steps
             later_calls.append(fin.calls)
             info["final_digest"] = fin.digest
@@ -496,16 +520,25 @@ def _run_plan(w, cfg, plan, ref, tape, *, seen_digests=None):
                     sim.kernel.run(loads)
                 simmanager.shutdown_all(sim)
             # 3. no stored work redone
+            # (as a multiset: the attempts after the one that left n stored elements with arguments K behind may make
+            # at most multiplicity(K) - n further calls with arguments K)
             for ai, S in enumerate(stored_sets):
+                seen = collections.Counter()
+                bad = None
                 for bi in range(ai + 1, len(later_calls)):
-                    redone = [c for c in later_calls[bi] if c.key() in S]
-                    if redone:
-                        V("no-redo", "stored-element-recomputed", {"plan": plan, "call": repr(redone[0]), "stored_after_attempt": ai,
-                                                                   "recomputed_in_attempt": bi}, _sig(None, last, fin))
+                    for c in later_calls[bi]:
+                        k2 = c.key()
+                        if k2 in S:
+                            seen[k2] += 1
+                            if seen[k2] > max(0, ref.C0.get(k2, 0) - S[k2]):
+                                bad = (c, bi)
+                                break
+                    if bad:
                         break
-                else:
-                    continue
-                break
+                if bad:
+                    V("no-redo", "stored-element-recomputed", {"plan": plan, "call": repr(bad[0]), "stored_after_attempt": ai,
+                                                               "recomputed_in_attempt": bad[1]}, _sig(None, last, fin))
+                    break
             counter[0] += n_attempt + 1
             return True
 
@@ -627,6 +660,10 @@ def _run_case(case, exec_seed=None, exec_tape=None):
         nth = per_fn.get(c.fn, 0)
         per_fn[c.fn] = nth + 1
         plans.append([{"kind": "raise", "fn": c.fn, "nth": nth, "exc": EXC_KINDS[(nth + len(c.fn)) % len(EXC_KINDS)]}])
+        ex = cfg["executor"]
+        if ex["kind"] in ("single", "default-pool") and ex["ex"]["mode"] == "process" and (nth + len(plans)) % 2 == 0:
+            # the pool worker that runs this call dies (os._exit, OOM kill): the pool breaks, the program lives on
+            plans.append([{"kind": "worker-death", "fn": c.fn, "nth": nth}])
     sel = Tape(derive_seed(seed, "select"))
     if len(plans) > cfg["max_plans"]:
         plans = sel.shuffle(plans, "plan-sample")[: cfg["max_plans"]]
